@@ -1079,10 +1079,7 @@ class Pregex():
         pre = __class__._to_pregex(pre)
         if pre._get_type() == _Type.Empty:
             return self
-        if _re.search(_re.sub(r"\s", "", r"""
-            (?<!\\)(?:\\\\)*(?<!\()(?:\?|\*|\+|\{,\d+\}|\{\d+,\}|\{\d+,\d+\})|
-            (?<!\\)(?:\\\\)*\\\((?:\?|\*|\+|\{,\d+\}|\{\d+,\}|\{\d+,\d+\})
-        """), str(pre)) is not None:
+        if not __class__.__is_fixed_width(str(pre)):
             raise _ex.NonFixedWidthPatternException(pre)
         return __class__(
             f"(?<={pre}){self._assert_conditional_group()}",
@@ -1110,10 +1107,7 @@ class Pregex():
         pre = __class__._to_pregex(pre)
         if pre._get_type() == _Type.Empty:
             return self
-        if _re.search(_re.sub(r"\s", "", r"""
-            (?<!\\)(?:\\\\)*(?<!\()(?:\?|\*|\+|\{,\d+\}|\{\d+,\}|\{\d+,\d+\})|
-            (?<!\\)(?:\\\\)*\\\((?:\?|\*|\+|\{,\d+\}|\{\d+,\}|\{\d+,\d+\})
-        """), str(pre)) is not None:
+        if not __class__.__is_fixed_width(str(pre)):
             raise _ex.NonFixedWidthPatternException(pre)
         return __class__(
             f"(?<={pre}){self._assert_conditional_group()}(?={pre})",
@@ -1160,10 +1154,7 @@ class Pregex():
         pre = __class__._to_pregex(pre)
         if pre._get_type() == _Type.Empty:
             raise _ex.EmptyNegativeAssertionException()
-        if _re.search(_re.sub(r"\s", "", r"""
-            (?<!\\)(?:\\\\)*(?<!\()(?:\?|\*|\+|\{,\d+\}|\{\d+,\}|\{\d+,\d+\})|
-            (?<!\\)(?:\\\\)*\\\((?:\?|\*|\+|\{,\d+\}|\{\d+,\}|\{\d+,\d+\})
-        """), str(pre)) is not None:
+        if not __class__.__is_fixed_width(str(pre)):
             raise _ex.NonFixedWidthPatternException(pre)
         pattern = f"(?<!{pre}){self._assert_conditional_group()}"
         return __class__(pattern, escape=False)
@@ -1189,10 +1180,7 @@ class Pregex():
         pre = __class__._to_pregex(pre)
         if pre._get_type() == _Type.Empty:
             raise _ex.EmptyNegativeAssertionException()
-        if _re.search(_re.sub(r"\s", "", r"""
-            (?<!\\)(?:\\\\)*(?<!\()(?:\?|\*|\+|\{,\d+\}|\{\d+,\}|\{\d+,\d+\})|
-            (?<!\\)(?:\\\\)*\\\((?:\?|\*|\+|\{,\d+\}|\{\d+,\}|\{\d+,\d+\})
-        """), str(pre)) is not None:
+        if not __class__.__is_fixed_width(str(pre)):
             raise _ex.NonFixedWidthPatternException(pre)
         pattern = f"(?<!{pre}){self._assert_conditional_group()}(?!{pre})"
         return __class__(pattern, escape=False)
@@ -1501,6 +1489,21 @@ class Pregex():
             temp, flags=__class__.__flags) is not None:
             return _Type.Quantifier, True
         return _Type.Other, True
+
+
+    @staticmethod
+    def __is_fixed_width(pattern: str) -> bool:
+        '''
+        Returns ``True`` if the provided RegEx pattern has a fixed width, \
+        that is, if it can be used as a lookbehind assertion pattern.
+
+        :param str pattern: The RegEx pattern that is to be examined.
+        '''
+        try:
+            _re.compile(f"(?<={pattern})", flags=__class__.__flags)
+        except _re.error as e:
+            return "fixed-width" not in str(e)
+        return True
 
 
     @staticmethod
